@@ -66,6 +66,11 @@ use crate::keymap::{Bindings, InputState, Refresher};
 pub use crate::keys::{KeyCode, KeyEvent, Modifiers};
 use crate::kill_ring::KillRing;
 pub use crate::layout::GraphemeClusterMode;
+/// Verification hook (add-only): makes the `Layout` argument of `LineBuffer::move_to_line_up/down`
+/// constructible from outside the crate. Compiled only with `--cfg kkawakam_rustyline_verif`.
+#[cfg(kkawakam_rustyline_verif)]
+#[allow(missing_docs)]
+pub use crate::layout::{Layout, Position};
 use crate::layout::Unit;
 pub use crate::tty::ExternalPrinter;
 pub use crate::undo::Changeset;
